@@ -519,6 +519,12 @@ def install(I):
 
     def np_sum(I_, a, k):
         v = a[0]
+        from .heap import FilteredArr
+        if isinstance(v, FilteredArr):
+            ind = v.indicator()
+            r = ind.fold("+").at(v.length)
+            I_.trace.setdefault("filtered_sum", []).append((r, v, ind))
+            return r
         if is_scalar(v):
             return v
         arr = to_arr(I_, v)
